@@ -151,3 +151,181 @@ mod neon;
     httparse_simd_neon_intrinsics,
 ))]
 pub use self::neon::*;
+
+/// Verification hooks: direct access to each scanner backend that is compiled in.
+#[cfg(httparse_verif)]
+#[allow(missing_docs)]
+pub mod verif {
+    use crate::iter::Bytes;
+
+    pub const BACKEND_SWAR: u8 = 0;
+    pub const BACKEND_SSE42: u8 = 1;
+    pub const BACKEND_AVX2: u8 = 2;
+    pub const BACKEND_SELECTED: u8 = 3;
+
+    pub const CLASS_URI: u8 = 0;
+    pub const CLASS_VALUE: u8 = 1;
+    pub const CLASS_NAME: u8 = 2;
+
+    /// Which provider the cfg lattice selected for this build.
+    pub fn provider() -> &'static str {
+        #[cfg(not(all(
+            httparse_simd,
+            any(
+                target_arch = "x86",
+                target_arch = "x86_64",
+                all(target_arch = "aarch64", httparse_simd_neon_intrinsics)
+            ),
+        )))]
+        return "swar";
+        #[cfg(all(
+            httparse_simd,
+            not(any(httparse_simd_target_feature_sse42, httparse_simd_target_feature_avx2)),
+            any(target_arch = "x86", target_arch = "x86_64"),
+        ))]
+        return "runtime";
+        #[cfg(all(
+            httparse_simd,
+            httparse_simd_target_feature_sse42,
+            not(httparse_simd_target_feature_avx2),
+            any(target_arch = "x86", target_arch = "x86_64"),
+        ))]
+        return "sse42_compile_time";
+        #[cfg(all(
+            httparse_simd,
+            httparse_simd_target_feature_avx2,
+            any(target_arch = "x86", target_arch = "x86_64"),
+        ))]
+        return "avx2_compile_time";
+        #[cfg(all(httparse_simd, target_arch = "aarch64", httparse_simd_neon_intrinsics))]
+        return "neon";
+    }
+
+    /// The cfg flags `build.rs` emitted, as seen by the crate.
+    pub fn flags() -> [bool; 4] {
+        [
+            cfg!(httparse_simd),
+            cfg!(httparse_simd_target_feature_sse42),
+            cfg!(httparse_simd_target_feature_avx2),
+            cfg!(httparse_simd_neon_intrinsics),
+        ]
+    }
+
+    fn run(f: impl FnOnce(&mut Bytes<'_>), buf: &[u8]) -> usize {
+        let mut bytes = Bytes::new(buf);
+        f(&mut bytes);
+        bytes.pos()
+    }
+
+    /// Runs one scanner of one backend on `buf`; `None` when that backend is not part of
+    /// this build or not supported by this CPU.
+    pub fn scan(backend: u8, class: u8, buf: &[u8]) -> Option<usize> {
+        match (backend, class) {
+            (BACKEND_SWAR, CLASS_URI) => Some(run(super::swar::match_uri_vectored, buf)),
+            (BACKEND_SWAR, CLASS_VALUE) => Some(run(super::swar::match_header_value_vectored, buf)),
+            (BACKEND_SWAR, CLASS_NAME) => Some(run(super::swar::match_header_name_vectored, buf)),
+            (BACKEND_SELECTED, CLASS_URI) => Some(run(super::match_uri_vectored, buf)),
+            (BACKEND_SELECTED, CLASS_VALUE) => Some(run(super::match_header_value_vectored, buf)),
+            (BACKEND_SELECTED, CLASS_NAME) => Some(run(super::match_header_name_vectored, buf)),
+            (BACKEND_SSE42, _) => scan_sse42(class, buf),
+            (BACKEND_AVX2, _) => scan_avx2(class, buf),
+            _ => None,
+        }
+    }
+
+    #[cfg(all(
+        feature = "std",
+        httparse_simd,
+        not(httparse_simd_target_feature_avx2),
+        any(target_arch = "x86", target_arch = "x86_64"),
+    ))]
+    fn scan_sse42(class: u8, buf: &[u8]) -> Option<usize> {
+        if !is_x86_feature_detected!("sse4.2") {
+            return None;
+        }
+        // SAFETY: feature checked above
+        match class {
+            CLASS_URI => Some(run(|b| unsafe { super::sse42::match_uri_vectored(b) }, buf)),
+            CLASS_VALUE => Some(run(|b| unsafe { super::sse42::match_header_value_vectored(b) }, buf)),
+            _ => None,
+        }
+    }
+
+    #[cfg(not(all(
+        feature = "std",
+        httparse_simd,
+        not(httparse_simd_target_feature_avx2),
+        any(target_arch = "x86", target_arch = "x86_64"),
+    )))]
+    fn scan_sse42(_class: u8, _buf: &[u8]) -> Option<usize> {
+        None
+    }
+
+    #[cfg(all(
+        feature = "std",
+        httparse_simd,
+        any(httparse_simd_target_feature_avx2, not(httparse_simd_target_feature_sse42)),
+        any(target_arch = "x86", target_arch = "x86_64"),
+    ))]
+    fn scan_avx2(class: u8, buf: &[u8]) -> Option<usize> {
+        if !is_x86_feature_detected!("avx2") {
+            return None;
+        }
+        // SAFETY: feature checked above
+        match class {
+            CLASS_URI => Some(run(|b| unsafe { super::avx2::match_uri_vectored(b) }, buf)),
+            CLASS_VALUE => Some(run(|b| unsafe { super::avx2::match_header_value_vectored(b) }, buf)),
+            _ => None,
+        }
+    }
+
+    #[cfg(not(all(
+        feature = "std",
+        httparse_simd,
+        any(httparse_simd_target_feature_avx2, not(httparse_simd_target_feature_sse42)),
+        any(target_arch = "x86", target_arch = "x86_64"),
+    )))]
+    fn scan_avx2(_class: u8, _buf: &[u8]) -> Option<usize> {
+        None
+    }
+
+    pub fn swar_kernel(class: u8, block: [u8; 8]) -> Option<usize> {
+        super::swar::_verif_swar_kernel(class, block)
+    }
+
+    pub fn swar_block_size() -> usize {
+        super::swar::_VERIF_SWAR_BLOCK_SIZE
+    }
+
+    /// Stores `feature` into the runtime-detection cache (runtime provider only).
+    pub fn set_runtime_feature(_feature: u8) -> bool {
+        #[cfg(all(
+            httparse_simd,
+            not(any(httparse_simd_target_feature_sse42, httparse_simd_target_feature_avx2)),
+            any(target_arch = "x86", target_arch = "x86_64"),
+        ))]
+        {
+            super::runtime::_verif_set_runtime_feature(_feature);
+            return true;
+        }
+        #[allow(unreachable_code)]
+        false
+    }
+
+    /// `(cached cell, freshly detected feature)` of the runtime provider.
+    pub fn runtime_feature() -> Option<(u8, u8)> {
+        #[cfg(all(
+            httparse_simd,
+            not(any(httparse_simd_target_feature_sse42, httparse_simd_target_feature_avx2)),
+            any(target_arch = "x86", target_arch = "x86_64"),
+        ))]
+        {
+            return Some((
+                super::runtime::_verif_runtime_feature_cell(),
+                super::runtime::_verif_detect_runtime_feature(),
+            ));
+        }
+        #[allow(unreachable_code)]
+        None
+    }
+}
